@@ -270,6 +270,10 @@ Value icinga::operator-(const Value& lhs, const Value& rhs)
 
 		ArrayData result;
 		Array::Ptr left = lhs;
+
+		if (rhs.IsEmpty() && !rhs.IsString())
+			return left->ShallowClone();
+
 		Array::Ptr right = rhs;
 
 		ObjectLock olock(left);
